@@ -53,6 +53,10 @@ CHECKS["C14"] = dict(category="exploration",
    technique="differential resume: serialize at a stable point, deserialize into a fresh interpreter (same and foreign document), run the same continuation on original and copy; both engines, null and lua datamodels",
    text="For random charts and prefix histories the snapshot is taken at the first stable configuration after the last prefix event (self-sent external events may be pending); original and restored interpreter must produce the same notifications, logs and configurations under the continuation and a byte-identical second snapshot; a state string for another document must be rejected. No Lean theorem yet (the engine-state encoding is simple; the bisimulation argument is planned), hence 'exploration'.",
    design_ref="6 / C14", note="Trusted: the trace harness; delayed events and invokers are outside the generated fragment.")
+CHECKS["C07"] = dict(category="proof",
+   technique="Lean 4 theorems about the model of BasicContentExecutor::process and the micro-steppers' per-block catch (Model.Exec), tied to the ASan+UBSan build by I = M trace comparison with failing elements injected at random block positions in ~30 concrete guises per datamodel; crash-freedom explored with sanitizers on element soup and corrupted charts",
+   text="Proved for every block, element, chart and executor state of the model: a failing element leaves error.execution/error.communication in the internal queue behind everything queued before, exactly the remainder of its block is skipped, the following blocks run, no queued event is lost. The model is the interpreter's for the generated fragment because every run compares the full monitor trace (both engines, null/lua/promela datamodels) token by token. 'Never terminates abnormally / never out of bounds' is a statement about the C++ run time that no theorem over the model can carry: it is explored (sanitizers, random well-formed XML with garbage expressions, data-init/donedata/script failures), and labelled as such.",
+   design_ref="6 / C07", note="Trusted: Lean kernel; hand model Model.Exec + trace harness; the concrete failing forms are re-validated each run (suite forms). Partial: memory safety and abnormal termination are exploration only; errors in finalize/invoke are left to C11.")
 PENDING = {}   # id -> reason (filled while the framework is being built)
 
 def main():
